@@ -317,6 +317,101 @@ fn multibyte(mut sh: Sheet) -> Sheet {
     out
 }
 
+// --- import sheets: the wrapper blocks of a rewritten `@import` are synthesised -----------------------------------------
+
+const IMP_LAYERS: &[&str] = &["", " layer(x)", " layer"];
+const IMP_SUPPORTS: &[&str] = &["", " supports(d:v)", " supports(selector(.s))"];
+const IMP_MEDIA: &[&str] = &["", " screen", " screen and (w:1rpx)"];
+/// separators written between the parts of the rule: one line, every part on a line of its own, behind a multi-byte comment
+const IMP_LAYOUTS: &[(&str, &str)] = &[("", ""), ("", "\n  "), ("/*é😀*/\n", "\n")];
+
+pub fn import_sheet_count() -> u64 {
+    (IMP_LAYERS.len() * IMP_SUPPORTS.len() * IMP_MEDIA.len() * IMP_LAYOUTS.len() * 2) as u64
+}
+
+pub fn import_sheet(i: u64) -> String {
+    let mut k = i as usize;
+    let two = k % 2 == 1;
+    k /= 2;
+    let (head, sep) = IMP_LAYOUTS[k % IMP_LAYOUTS.len()];
+    k /= IMP_LAYOUTS.len();
+    let m = IMP_MEDIA[k % IMP_MEDIA.len()];
+    k /= IMP_MEDIA.len();
+    let sp = IMP_SUPPORTS[k % IMP_SUPPORTS.len()];
+    k /= IMP_SUPPORTS.len();
+    let l = IMP_LAYERS[k % IMP_LAYERS.len()];
+    let part = |x: &str| if x.is_empty() { String::new() } else { format!("{}{}", sep, x) };
+    let mut t = format!("{}@import \"a.wxss\"{}{}{};", head, part(l), part(sp), part(m));
+    if two {
+        t.push_str(&format!("{}@import url(b){}{};{}.c{{k:v}}", sep, part(l), part(m), sep));
+    }
+    t
+}
+
+/// every bracket of the output has an entry; a closing bracket points where its opening bracket points (a synthesised
+/// block has no closing bracket in the source) or at a closing bracket of its own kind in the source
+pub fn check_import_sheet(text: &str) -> Result<Vec<Problem>, String> {
+    let opts = Opts { import_sign: Some("I".into()), class_prefix: Some("p".into()), ..Default::default() };
+    let run = css::transform("m.wxss", text, &opts, 0, true).map_err(|(s, m)| crate::common::panic_err(text, &opts.to_json(), &s, &m))?;
+    let mut problems = vec![];
+    check_entries_sorted("normal", &run.map_normal, &mut problems);
+    let lines: Vec<Vec<u16>> = text.split('\n').map(|l| l.encode_utf16().collect()).collect();
+    for m in run.map_normal.iter().filter(|m| m.has_source) {
+        let ok = (m.src_line as usize) < lines.len() && (m.src_col as usize) <= lines[m.src_line as usize].len();
+        if !ok {
+            problems.push(Problem { kind: "entry-outside-the-source".into(), detail: format!("{:?}", m) });
+            return Ok(problems);
+        }
+    }
+    let act = actual(&run.normal);
+    let mut stack: Vec<(usize, T)> = vec![];
+    for (idx, a) in act.iter().enumerate() {
+        let closer = match &a.t {
+            T::Func(_) | T::OpenParen => {
+                stack.push((idx, T::CloseParen));
+                continue;
+            }
+            T::OpenSquare => {
+                stack.push((idx, T::CloseSquare));
+                continue;
+            }
+            T::OpenCurly => {
+                stack.push((idx, T::CloseCurly));
+                continue;
+            }
+            T::CloseParen | T::CloseSquare | T::CloseCurly => a.t.clone(),
+            _ => continue,
+        };
+        let Some((open_idx, want)) = stack.pop() else {
+            return Ok(problems); // unbalanced output: C18's business
+        };
+        if want != closer {
+            return Ok(problems);
+        }
+        let col_of = |k: usize| utf16_offset(&run.normal, act[k].start);
+        let entry = |k: usize| run.map_normal.iter().find(|m| m.dst_col == col_of(k) && m.has_source);
+        let (Some(eo), Some(ec)) = (entry(open_idx), entry(idx)) else {
+            problems.push(Problem { kind: "no-entry-at-bracket".into(), detail: format!("output {:?}: bracket pair at columns {} / {}", run.normal, col_of(open_idx), col_of(idx)) });
+            continue;
+        };
+        let ch = match closer {
+            T::CloseParen => ')',
+            T::CloseSquare => ']',
+            _ => '}',
+        };
+        let src_char = lines[ec.src_line as usize].get(ec.src_col as usize).copied();
+        let own = src_char == Some(ch as u16);
+        let same_as_opener = (eo.src_line, eo.src_col) == (ec.src_line, ec.src_col);
+        if !own && !same_as_opener {
+            problems.push(Problem {
+                kind: "closing-bracket-points-away-from-its-block".into(),
+                detail: format!("output {:?}: the {:?} at column {} maps to {:?}, its opening bracket at column {} maps to {:?}", run.normal, ch, col_of(idx), (ec.src_line, ec.src_col), col_of(open_idx), (eo.src_line, eo.src_col)),
+            });
+        }
+    }
+    Ok(problems)
+}
+
 pub fn explore(thorough: bool, result_path: &str) {
     silence_panics();
     let d = if thorough { 2 } else { 1 };
@@ -339,10 +434,34 @@ pub fn explore(thorough: bool, result_path: &str) {
     let lens1: &[u32] = &[2, 2];
     let nh = crate::c17::lists(1, lens1, crate::c17::LEAVES.len() as u64);
     let dsz = nh * host_opts.len() as u64 * 2;
-    let total = a + b + c + cf + dsz;
+    // space E: rewritten imports (synthesised wrapper blocks): every combination of conditions x three layouts x one / two imports
+    let esz = import_sheet_count();
+    let total = a + b + c + cf + dsz + esz;
     let o_full = Opts { class_prefix: Some("p".into()), class_prefix_sign: Some("S".into()), ..Default::default() };
     let o_plain = Opts { class_prefix: Some("p".into()), ..Default::default() };
     let rep = par_run(total, threads(), |i, rep| {
+        if i >= a + b + c + cf + dsz {
+            let text = import_sheet(i - (a + b + c + cf + dsz));
+            rep.transitions += 1;
+            match check_import_sheet(&text) {
+                Err(m) => rep.engine_error("C19", m),
+                Ok(problems) => {
+                    rep.states += 1;
+                    rep.evaluations += 1;
+                    rep.count("space:import-sheets", 1);
+                    rep.nontrivial_case(&text);
+                    rep.outcome(&(problems.len(), "import", text.len()));
+                    for p in problems {
+                        rep.violation(Violation {
+                            fingerprint: format!("C19|{}", p.kind),
+                            what: format!("{}: {} — input {:?}", p.kind, p.detail, text),
+                            replay: json!({"engine": "c19", "import_sheet": text}),
+                        });
+                    }
+                }
+            }
+            return;
+        }
         if i >= a + b + c + cf {
             let mut k = i - (a + b + c + cf);
             let nl = k % 2 == 1;
@@ -444,7 +563,7 @@ pub fn explore(thorough: bool, result_path: &str) {
     });
     let res = rep.to_result(
         "C19",
-        "C08's selector and value-pair sheets, plain and with a multi-byte / astral comment line in front and multi-byte class names and strings, plus every line-breaking / multi-byte filler at every gap; for every output token of the normal output: an entry at its UTF-16 column whose source position is the start of its input token (closing bracket: its own or its opener's; sign comment: the class it marks), original spelling as name for rewritten tokens; entries sorted; identical after JSON serialisation. non-trivial = the input has several lines or non-ASCII characters; distinct = distinct input",
+        "C08's selector and value-pair sheets, plain and with a multi-byte / astral comment line in front and multi-byte class names and strings, plus every line-breaking / multi-byte filler at every gap; rewritten @import rules with every combination of conditions in three layouts (the closing bracket of a synthesised block must point where its opening bracket points); for every output token of the normal output: an entry at its UTF-16 column whose source position is the start of its input token (closing bracket: its own or its opener's; sign comment: the class it marks), original spelling as name for rewritten tokens; entries sorted; identical after JSON serialisation. non-trivial = the input has several lines or non-ASCII characters; distinct = distinct input",
         json!({"selector_depth": d, "wrapper_chain": 1, "line_fillers": LINE_FILLERS.iter().map(|f| f.iter().map(|x| x.0).collect::<String>()).collect::<Vec<_>>(), "token_kinds": KINDS.len(), "value_contexts": VALUE_CONTEXTS.len()}),
         true,
         &["cssparser tokenizer for output token boundaries", "sourcemap crate decodes the serialised map", "sheets on which the token streams disagree are C08's business and skipped here (counted)"],
@@ -455,6 +574,14 @@ pub fn explore(thorough: bool, result_path: &str) {
 
 pub fn replay(v: &Value) -> Value {
     silence_panics();
+    if let Some(t) = v.get("import_sheet").and_then(|x| x.as_str()) {
+        let go = || match check_import_sheet(t) {
+            Ok(p) => p.into_iter().map(|x| format!("{}: {}", x.kind, x.detail)).collect::<Vec<_>>(),
+            Err(m) => vec![m],
+        };
+        let (a, b) = (go(), go());
+        return json!({"deterministic": a == b, "failure": if a.is_empty() { Value::Null } else { json!(a) }});
+    }
     if v.get("host_tree").is_some() {
         let nodes = crate::c17::tree_from(&v["host_tree"]);
         let opts = Opts::from_json(&v["options"]);
